@@ -210,21 +210,24 @@ func waitDiscipline(c *an.Check, construct string, fn *ssa.Function, isGetter fu
 	}())
 }
 
-func c22(c *an.Check) {
+// epochSections decides, for the relay's Session, that every critical section changing a peer slot bumps the epoch, wakes
+// the waiters and clears the partner's pending delivery before unlocking (shared by C22 and C20: a message queued in
+// an older epoch must not survive into the next one).
+func epochSections(c *an.Check) (h *srvHandlers, mtx *types.Var, bcast, getw *ssa.Function, isPeerStore func(ssa.Instruction) bool, ok bool) {
 	p := c.P
-	h := serverHandlers(c)
+	h = serverHandlers(c)
 	if h == nil {
 		return
 	}
-	mtx := fv(c, srvPkg, "Server", "mtx")
+	mtx = fv(c, srvPkg, "Server", "mtx")
 	peerA, peerB := fv(c, srvPkg, "sessionTracker", "peerA"), fv(c, srvPkg, "sessionTracker", "peerB")
-	bcast := trackerMethod(p, "sessionTracker", closesChan)
-	getw := trackerMethod(p, "sessionTracker", makesChan)
+	bcast = trackerMethod(p, "sessionTracker", closesChan)
+	getw = trackerMethod(p, "sessionTracker", makesChan)
 	if mtx == nil || peerA == nil || peerB == nil || bcast == nil || getw == nil {
 		c.Undecided("MUSTCALL", "signaling server attach/detach", h.sess, "unresolved anchor: tracker broadcast / wait-channel methods not found")
 		return
 	}
-	isPeerStore := func(ins ssa.Instruction) bool {
+	isPeerStore = func(ins ssa.Instruction) bool {
 		if _, _, ok := storeTo(ins, peerA); ok {
 			return true
 		}
@@ -322,6 +325,16 @@ func c22(c *an.Check) {
 					return false
 				}},
 			}})
+	}
+	ok = true
+	return
+}
+
+func c22(c *an.Check) {
+	p := c.P
+	h, mtx, bcast, getw, isPeerStore, ok := epochSections(c)
+	if !ok {
+		return
 	}
 	// (b) R4: the attaching call takes its wait channel before it broadcasts its own registration
 	var firstGet *ssa.Call
